@@ -77,7 +77,7 @@ func (array *Array) adjoin(b []byte) []byte {
 	for i, n := range array.children {
 		if 0 < i {
 			if n.newline() {
-				b = append(b, indent[:n.left()+1]...)
+				b = newlineIndent(b, n.left())
 			} else {
 				b = append(b, ' ')
 			}
